@@ -26,7 +26,7 @@ let addr_id s =
 let () =
   let cases = read_lines Sys.argv.(1) in
   let impl = impl_table Sys.argv.(2) in
-  let n_tx = ref 0 and n_probe = ref 0 and n_edit = ref 0 and n_connlost = ref 0 in
+  let n_tx = ref 0 and n_probe = ref 0 and n_edit = ref 0 and n_connlost = ref 0 and n_deferred = ref 0 in
   List.iteri (fun k line ->
     let lines = impl_lines impl k in
     let fails = ref [] in
@@ -75,7 +75,21 @@ let () =
           add_fail "not-demoted" (Printf.sprintf "op [%s]: connection to 10.0.0.%d lost with queries outstanding and no failure callback followed" !cur_op (iz a));
           dmon := None
         | _ -> () in
-      let feed ob descr =
+      (* TCP sockets whose connection is still being established: a query assigned to such a
+         connection is written later (next write event), so its TX line is later than the choice
+         of the server.  For those deferred writes the choice is accepted if the server was a
+         legitimate target at SOME moment since the socket was connected.
+         pend: socket -> (address, accepted-as-user-target, accepted-as-probe-target,
+                          first write done, a flushing op has been seen) *)
+      let pend : (string, int * bool ref * bool ref * bool ref * bool ref) Hashtbl.t = Hashtbl.create 8 in
+      let refresh_pending () =
+        match !mon with
+        | None -> ()
+        | Some m ->
+          Hashtbl.iter (fun _ (a, oku, okp, _, _) ->
+            if fresh_okb m.m_rotate m.m_servers (zi a) then oku := true;
+            (match find_addr (zi a) m.m_servers with Some sv when iz sv.sv_fail > 0 -> okp := true | _ -> ())) pend in
+      let feed ?(skip_mon = false) ob descr =
         (match !dmon with
          | None -> ()
          | Some d ->
@@ -98,11 +112,12 @@ let () =
                    (match ob with ODone (l, _) -> List.length (List.filter (fun x -> x = l) b.b_txs) | _ -> 0)
                    (int_of_nat b.b_nsrv) (iz b.b_tries));
               bmon := None));
+        if skip_mon then () else
         match !mon with
         | None -> ()
         | Some m ->
           (match mon_step m ob with
-           | Some m' -> mon := Some m'
+           | Some m' -> mon := Some m'; (match ob with OTx _ | ODone _ | OConnLost _ -> () | _ -> refresh_pending ())
            | None ->
              add_fail (match ob with
                  | OTx (l, _, true) -> if Hashtbl.mem retx (int_of_nat l) then "probe-moved" else "probe-target"
@@ -123,8 +138,19 @@ let () =
               | Some a -> incr n_connlost; feed (OConnLost (zi a, true)) (Printf.sprintf "connection %s to 10.0.0.%d lost" sk a)
               | None -> ())
            | _ -> ())
+        | "CONNECT" :: sk :: a :: _ ->
+          (match addr_id a with
+           | Some a -> Hashtbl.replace pend sk (a, ref false, ref false, ref false, ref false); refresh_pending ()
+           | None -> ())
+        | "CLOSE" :: sk :: _ -> Hashtbl.remove pend sk
         | "OP" :: _ :: rest | "CBOP" :: rest ->
           due_check ();
+          (* a connection is established once a processing op that follows its creation is over *)
+          let gone = Hashtbl.fold (fun sk (_, _, _, _, fl) acc -> if !fl then sk :: acc else acc) pend [] in
+          List.iter (Hashtbl.remove pend) gone;
+          (match rest with
+           | ("run" | "proc" | "proct" | "procsel") :: _ -> Hashtbl.iter (fun _ (_, _, _, _, fl) -> fl := true) pend
+           | _ -> ());
           cur_op := String.concat " " rest;
           (match rest with
            | ["setservers"; csv] ->
@@ -168,7 +194,14 @@ let () =
               | None -> add_fail "choice" (Printf.sprintf "op [%s]: transmission to an address that was never configured: %s" !cur_op l)
               | Some i ->
                 (match List.assoc_opt i !srvtab with
-                 | Some a -> feed (OTx (nat_of_int id, zi a, probe)) (Printf.sprintf "TX id=%d -> 10.0.0.%d%s" id a (if probe then " (probe)" else ""))
+                 | Some a ->
+                   let sk = match w with _ :: _ :: sk :: _ -> sk | _ -> "" in
+                   let deferred_ok = match Hashtbl.find_opt pend sk with
+                     | Some (_, oku, okp, first, _) when field w "proto" = Some "tcp" ->
+                       if !first then (if probe then !okp else !oku) else (first := true; false)
+                     | _ -> false in
+                   if deferred_ok then incr n_deferred;
+                   feed ~skip_mon:deferred_ok (OTx (nat_of_int id, zi a, probe)) (Printf.sprintf "TX id=%d -> 10.0.0.%d%s" id a (if probe then " (probe)" else ""))
                  | None -> add_fail "srv-index" (Printf.sprintf "unknown srv index in %s" l)))
            | _ -> ())
         | "SERVERSTATE" :: a :: rest ->
@@ -228,4 +261,4 @@ let () =
             (if !edits_inflight > 0 then "-editinflight" else if !edits > 0 then "-edit" else "") in
       Printf.printf "CASE %d %s\n" k cls;
       List.iter (fun (kind, s) -> Printf.printf "FAIL %d %s %s\n" k kind s) (List.rev !fails)) cases;
-  Printf.printf "STAT transmissions %d\nSTAT probes %d\nSTAT edits %d\nSTAT connections-lost %d\n" !n_tx !n_probe !n_edit !n_connlost
+  Printf.printf "STAT transmissions %d\nSTAT probes %d\nSTAT edits %d\nSTAT connections-lost %d\nSTAT deferred-tcp-writes %d\n" !n_tx !n_probe !n_edit !n_connlost !n_deferred
